@@ -26,7 +26,7 @@ func init() {
 	fw.Register(&fw.Prop{
 		ID:       "C02",
 		Rule:     "msg: controller-message corpus (as C01) walked by the reference TLV walker; element: every constructible action kind (standard and Nicira, incl. actions nested in conntrack), instruction kind, bucket and match encoded standalone and walked; steps: builder histories (append/prepend on instructions, AddAction on packet-out/bucket/conntrack, AddField on matches) where the derived length field is compared with the walker's recomputation after every call. distinct = hash(mode, recipe without xid); non-trivial = at least 2 nested elements of different kinds or nesting depth >= 3",
-		NumCases: func(tier string, seed uint64) int { return nCases(tier, 60000, 16000000) },
+		NumCases: func(tier string, seed uint64) int { return nCases(tier, 300000, 16000000) },
 		Gen: func(tier string, seed uint64, i int) any {
 			switch i % 4 {
 			case 0, 1:
